@@ -11,7 +11,8 @@
         lower-cased (http_header_lc[id] for known ids), repeated fields split at the
         "\r\nname: " separators http_header_response_insert() wrote, internal X-Sendfile /
         X-LIGHTTPD-* headers omitted, "date" and "server" added when absent; nothing at all
-        (RST_STREAM INTERNAL_ERROR) when the expanded size exceeds 65535
+        (RST_STREAM INTERNAL_ERROR, decided before the encoder is touched) when the
+        expanded size of all headers exceeds 65535
     h2_send_1xx() / h2_send_end_stream_trailers() / h2_send_headers_block()
                                        -> `interimFields` / `trailerFields` / `blockFields`
     h2_parse_frame_settings(SETTINGS_HEADER_TABLE_SIZE) -> `peerTableSize`
@@ -144,6 +145,11 @@ def respFields (status : Nat) (r : Resp) (serverTag : Option Bytes) : Option (Li
   let r := if status = 304 ∧ r.tags.contains Extracted.hdrContentEncoding then
       { r with arr := r.arr.map fun e =>
           if e.id = Extracted.hdrContentEncoding then { e with value := [] } else e } else r
+  -- size pre-pass over every non-blank header (also those omitted below), before
+  -- anything is handed to the HPACK encoder
+  let total := r.arr.foldl (fun a e => if e.key = [] ∨ e.value = [] then a
+                                        else a + e.key.length + e.value.length + 4) 14
+  if total > 65535 then none else
   match bodyFields r.repeated r.arr 14 with
   | none => none
   | some (fs, _) =>
